@@ -272,6 +272,74 @@ func TestC16(t *testing.T) {
 		}
 		col.Case(evd.FP("stream", sc.name), true)
 	}
+	// streaming pull with real traffic and flow-control values at the boundaries
+	// of the payload sizes (exactly filled, one below, one above, tiny, huge):
+	// the stream's own goroutines must survive them too
+	payload := []byte(`{"k":"0123456789"}`) // 18 bytes
+	fcIdx := 0
+	for _, maxBytes := range []int64{1, 17, 18, 19, 35, 36, 37, 54, 0, -1, 1 << 40} {
+		for _, maxMsgs := range []int64{1, 2, 3, 0} {
+			fcIdx++
+			if !cfg.Mine(fcIdx) {
+				continue
+			}
+			name := fmt.Sprintf("StreamingPull/flow-control/bytes=%d/msgs=%d", maxBytes, maxMsgs)
+			line, _ := json.Marshal(map[string]any{"stream": name})
+			reqLog.Write(append(line, '\n'))
+			reqLog.Sync()
+			sub := fmt.Sprintf("projects/p/subscriptions/fc%d", fcIdx)
+			c, cancel := context.WithTimeout(ctx, 10*time.Second)
+			_, e1 := srv.api.Sub.CreateSubscription(c, &pubsubpb.Subscription{Name: sub, Topic: w.Topic})
+			_, e2 := srv.api.Pub.Publish(c, &pubsubpb.PublishRequest{Topic: w.Topic, Messages: []*pubsubpb.PubsubMessage{{Data: payload}, {Data: payload}, {Data: payload}}})
+			var got []string
+			st, err := srv.api.Sub.StreamingPull(c)
+			if err == nil && e1 == nil && e2 == nil {
+				st.Send(&pubsubpb.StreamingPullRequest{Subscription: sub, StreamAckDeadlineSeconds: 10, MaxOutstandingBytes: maxBytes, MaxOutstandingMessages: maxMsgs})
+				recvDone := make(chan struct{})
+				go func() {
+					defer close(recvDone)
+					for {
+						r, err := st.Recv()
+						if err != nil {
+							return
+						}
+						for _, m := range r.ReceivedMessages {
+							got = append(got, m.AckId)
+						}
+						if len(got) >= 3 {
+							return
+						}
+						// leave them outstanding for a moment, then ack one at a time
+						time.Sleep(150 * time.Millisecond)
+						if len(got) > 0 {
+							st.Send(&pubsubpb.StreamingPullRequest{AckIds: got[len(got)-1:]})
+						}
+					}
+				}()
+				select {
+				case <-recvDone:
+				case <-time.After(2 * time.Second):
+				}
+				st.CloseSend()
+			}
+			cancel()
+			select {
+			case <-srv.exited:
+			case <-time.After(300 * time.Millisecond):
+			}
+			if !srv.alive() {
+				crashes++
+				col.Violation("crash:"+name, fmt.Sprintf("the server process died during a StreamingPull with max_outstanding_bytes=%d max_outstanding_messages=%d over three 18-byte messages: %s", maxBytes, maxMsgs, srv.panicLine()), map[string]any{"script": name})
+				restart()
+			} else if !probe() {
+				col.Violation("wedged:"+name, fmt.Sprintf("after a StreamingPull with max_outstanding_bytes=%d max_outstanding_messages=%d the server no longer answers", maxBytes, maxMsgs), map[string]any{"script": name})
+				restart()
+			} else {
+				answered++
+			}
+			col.Case(evd.FP("stream-fc", maxBytes, maxMsgs), true)
+		}
+	}
 	col.Add("relevant_events", answered+crashes)
 	col.Add("ev_requests_answered_with_a_status", answered)
 	col.Add("ev_server_crashes", crashes)
